@@ -13,6 +13,7 @@ pub use crate::compaction::stream::{
 pub use crate::compaction::{Choice, CompactionStrategy, Input};
 pub use crate::key::InternalKey;
 pub use crate::key_range::KeyRange;
+pub use crate::table::block_index::{BlockIndex, BlockIndexIter};
 pub use crate::tree::sealed::SealedMemtables;
 pub use crate::version::run::{Ranged, Run};
 pub use crate::version::{persist_version, SuperVersion, SuperVersions, Version};
